@@ -26,8 +26,12 @@ CONSTANTS Rep,          \* replicas = sources (strings)
                         \* (symmetry reduction: every action and predicate is invariant under renaming replicas;
                         \*  the harness binds the names to real source ids by a seeded permutation)
 
+ASSUME Rep = {"a", "b", "c"}
+(* functions over Rep are built as explicit records: TLC evaluates them eagerly (a function constructor is a lazily
+   re-evaluated closure, which made the nested vector operations ~10x slower) *)
+Fn(F(_)) == [a |-> F("a"), b |-> F("b"), c |-> F("c")]
 NoSrc == ""
-Zero  == [x \in Rep |-> 0]
+Zero  == Fn(LAMBDA x : 0)
 EmptyHLV == [src |-> NoSrc, ver |-> 0, mv |-> Zero, pv |-> Zero]
 Max(a, b) == IF a >= b THEN a ELSE b
 
@@ -47,7 +51,7 @@ MaxForSource(h, x) ==
 
 (* InvalidateMV: every mv entry except the one sharing the cv source is written (unconditionally) to pv *)
 InvalidateMV(h) ==
-  [h EXCEPT !.pv = [x \in Rep |-> IF h.mv[x] # 0 /\ x # h.src THEN h.mv[x] ELSE h.pv[x]], !.mv = Zero]
+  [h EXCEPT !.pv = Fn(LAMBDA x : IF h.mv[x] # 0 /\ x # h.src THEN h.mv[x] ELSE h.pv[x]), !.mv = Zero]
 
 (* AddVersion -> [ok, h] *)
 AddVersion(h, s, v) ==
@@ -55,7 +59,7 @@ AddVersion(h, s, v) ==
   ELSE IF Found(h, s) /\ Val(h, s) > v THEN [ok |-> FALSE, h |-> h]
   ELSE LET i == InvalidateMV(h) IN
        IF s = h.src THEN [ok |-> TRUE, h |-> [i EXCEPT !.ver = v]]
-       ELSE [ok |-> TRUE, h |-> [i EXCEPT !.pv = [x \in Rep |-> IF x = s THEN 0 ELSE IF x = h.src THEN h.ver ELSE i.pv[x]],
+       ELSE [ok |-> TRUE, h |-> [i EXCEPT !.pv = Fn(LAMBDA x : IF x = s THEN 0 ELSE IF x = h.src THEN h.ver ELSE i.pv[x]),
                                           !.src = s, !.ver = v]]
 
 (* AddVersionToPV: outcome, and the vector after it *)
@@ -67,7 +71,7 @@ AddToPV(h, x, v) == IF PVStatus(h, x, v) = "versionAddedToPV" THEN [h EXCEPT !.p
 (* a loop of AddVersionToPV over the entries of a map: each entry reads cv, mv and its own pv slot and writes only
    its own pv slot, so the loop is order independent and is written pointwise *)
 AddAllToPV(h, m) ==
-  [h EXCEPT !.pv = [x \in Rep |-> IF m[x] # 0 /\ PVStatus(h, x, m[x]) = "versionAddedToPV" THEN m[x] ELSE h.pv[x]]]
+  [h EXCEPT !.pv = Fn(LAMBDA x : IF m[x] # 0 /\ PVStatus(h, x, m[x]) = "versionAddedToPV" THEN m[x] ELSE h.pv[x])]
 
 (* UpdateHistory(hlv = h, incomingHLV = inc): cv (return value ignored), mv loop with break on versionInMVOlder ->
    InvalidateMV and re-add every mv entry, then pv (return values ignored).  Entries added before the break are
@@ -132,9 +136,9 @@ CV(h) == [src |-> h.src, ver |-> h.ver]
 Value(h, x) == Max(IF h.src = x THEN h.ver ELSE 0, Max(h.mv[x], h.pv[x]))
 
 Init ==
-  /\ hlv = [r \in Rep |-> EmptyHLV] /\ out = NoOut
-  /\ seen = [r \in Rep |-> Zero] /\ mrg = [r \in Rep |-> {}] /\ gen = Zero
-  /\ gcls = "None" /\ mono = TRUE /\ genok = TRUE /\ lost = [r \in Rep |-> {}] /\ dev = ""
+  /\ hlv = Fn(LAMBDA r : EmptyHLV) /\ out = NoOut
+  /\ seen = Fn(LAMBDA r : Zero) /\ mrg = Fn(LAMBDA r : {}) /\ gen = Zero
+  /\ gcls = "None" /\ mono = TRUE /\ genok = TRUE /\ lost = Fn(LAMBDA r : {}) /\ dev = ""
   /\ hist = <<>>
 
 (* ---- ground truth ---- *)
@@ -154,7 +158,7 @@ Truth(r, s) ==
   ELSE IF HasSeen(s, CV(hlv[r])) THEN "NoConflict"
   ELSE IF SameMerge(r, s) THEN "NoConflict"
   ELSE "Conflict"
-PMax(f, g) == [x \in Rep |-> Max(f[x], g[x])]
+PMax(f, g) == Fn(LAMBDA x : Max(f[x], g[x]))
 
 (* Named deviation D2 (genuine loss, reproduced on the real code - NOTES.md): UpdateHistory(h, inc) ignores the outcome
    of AddVersionToPV for inc's cv and pv entries.  A version of source x carried by inc is silently dropped when
@@ -195,7 +199,7 @@ GhostEdit(r) ==        \* refers to out'.v (already determined by ImplEdit or by
   /\ gen' = [gen EXCEPT ![r] = Max(@, v)]
   /\ genok' = (genok /\ (v > gen[r] \/ r \in lost[r]))     \* floor+1 from a vector that lost its own source: consequence of D2
   /\ gcls' = "None"
-  /\ GhostBook(r, [x \in Rep |-> IF x = r THEN Max(v, Value(hlv[r], x)) ELSE Value(hlv[r], x)], [x \in Rep |-> ""])
+  /\ GhostBook(r, Fn(LAMBDA x : IF x = r THEN Max(v, Value(hlv[r], x)) ELSE Value(hlv[r], x)), Fn(LAMBDA x : ""))
 
 (* ---- Pull ---- *)
 ImplPull(r, s, res, v) ==
@@ -215,10 +219,10 @@ GhostPull(r, s, res) ==     \* follows what the replica really did: out'.cls (re
       took == c = "NoConflict" \/ (c = "Conflict" /\ res \in {"RemoteWins", "LocalWins", "Merge"})
       mrgd == c = "Conflict" /\ res = "Merge"
       m == PMax(seen[r], seen[s])
-      want == [x \in Rep |-> IF ~took THEN Value(l, x)
+      want == Fn(LAMBDA x : IF ~took THEN Value(l, x)
                              ELSE IF mrgd /\ x = r THEN Max(v, Max(Value(l, x), Value(i, x)))
-                             ELSE Max(Value(l, x), Value(i, x))]
-      cls == [x \in Rep |-> IF ~took \/ mrgd THEN "" ELSE ShadowClass(Survivor(l, i, c, res), Folded(l, i, c, res), x)]
+                             ELSE Max(Value(l, x), Value(i, x)))
+      cls == Fn(LAMBDA x : IF ~took \/ mrgd THEN "" ELSE ShadowClass(Survivor(l, i, c, res), Folded(l, i, c, res), x))
   IN /\ gcls' = Truth(r, s)
      /\ seen' = [seen EXCEPT ![r] = IF ~took THEN @ ELSE IF mrgd THEN [m EXCEPT ![r] = Max(@, v)] ELSE m]
      /\ mrg' = [mrg EXCEPT ![r] = CASE c = "NoConflict" \/ (c = "Conflict" /\ res = "RemoteWins") -> mrg[s]
